@@ -31,6 +31,14 @@ fn check_case(c: &SeqCase, obs: &mut Obs) -> Verdict {
         Ok(e) => e,
         Err(p) => return Verdict::Fail(format!("raw diff: {}", p)),
     };
+    // the totals below only mean something for a script that is a valid one (C01/C02 oracles)
+    {
+        let (old, new) = (&c.old, &c.new);
+        if let Err(m) = validate_raw(&ev, c.old_r(), c.new_r(), &|i, j| old[i] == new[j]) {
+            let short: String = format!("{:?}", ev).chars().take(600).collect();
+            return Verdict::Fail(format!("{} raw stream is not a valid script: {} (stream {})", alg_name(c.alg), m, short));
+        }
+    }
     let (d, i, e) = events_cost(&ev);
     if d + i != want {
         return Verdict::Fail(format!(
@@ -45,6 +53,13 @@ fn check_case(c: &SeqCase, obs: &mut Obs) -> Verdict {
         Ok(o) => o,
         Err(p) => return Verdict::Fail(format!("capture: {}", p)),
     };
+    {
+        let (old, new) = (&c.old, &c.new);
+        if let Err(m) = validate_ops(&ops, c.old_r(), c.new_r(), &|i, j| old[i] == new[j]) {
+            let short: String = format!("{:?}", ops).chars().take(600).collect();
+            return Verdict::Fail(format!("{} captured ops are not a valid script: {} (ops {})", alg_name(c.alg), m, short));
+        }
+    }
     let (d2, i2, e2) = ops_cost(&ops);
     if d2 + i2 != want || e2 != l {
         return Verdict::Fail(format!(
